@@ -51,6 +51,28 @@ Theorem C01_exec_exact :
 Proof. exact lx_exec_exact. Qed.
 Print Assumptions C01_exec_exact.
 
+(* (3a) the same on the channels the correspondence suites use, in particular with slow sending configured
+        (slow_send_delay, slow_send_chunksize > 0) over a transport with ANY accept pattern (short writes):
+        exactly the two lines are written, whatever the chunking *)
+Theorem C01_exec_exact_with_slow_sending :
+  forall ash acc delay csz args st1 st2 sts out ds,
+  0 < csz ->
+  let c := lx_chan_slow ash acc (delay, csz) in
+  Forall nonul args ->
+  any_in (blacklist c) (utf8_enc (sh_escape args) ++ [CR]) = false ->
+  any_in (blacklist c) (ECHO_Q ++ [CR]) = false ->
+  wf_pend st1 -> cat st1 = tty_echo false (utf8_enc (sh_escape args) ++ [CR]) ++ onlcr out ++ TBOT_PROMPT ->
+  prompt_only_at_end TBOT_PROMPT (onlcr out) ->
+  wf_pend st2 -> cat st2 = tty_echo false (ECHO_Q ++ [CR]) ++ (ds ++ [CR; LF]) ++ TBOT_PROMPT ->
+  all_digits ds -> ds <> [] -> prompt_only_at_end TBOT_PROMPT (ds ++ [CR; LF]) ->
+  exists c',
+    lx_exec args (st1 :: st2 :: sts) c = (XOk (dec_val ds) (text (onlcr out)), c', sts) /\
+    insync c' /\
+    wr (io c') = (utf8_enc (sh_escape args) ++ [CR]) ++ (ECHO_Q ++ [CR]) /\
+    sh_words (utf8_enc (sh_escape args)) = Some (map utf8_enc args).
+Proof. exact lx_exec_exact_slow. Qed.
+Print Assumptions C01_exec_exact_with_slow_sending.
+
 (* (3b) the normalised text of ONLCR output is the output itself (ASCII output without CR) *)
 Theorem C01_crlf_normalisation :
   forall out, Forall (fun b => (b < 128)%N /\ b <> CR) out -> text (onlcr out) = out.
